@@ -31,6 +31,19 @@ def run(rep, tier):
     t = 150 if tier == "quick" else 500
     specs = [("c_one_json", "1-component structures: every dtype x role x structure kind through to_vtl_json", _cls("c_one_json")),
              ("c_one_loader", "1-component structures through load_datasets (what run()/semantic_analysis() use): Dataset components", _cls("c_one_loader"))]
+    def _cls2(name):
+        def c(args):
+            a = [int(x) for x in re.findall(r"-?\d+", args)]
+            from pysdmx.model import DataType
+            dts = list(DataType)
+            di, cj, src = (a[-3], a[-2], a[-1]) if len(a) >= 3 else (0, 0, 0)
+            eff = dts[cj if src == 1 else di].value if 0 <= di < len(dts) and 0 <= cj < len(dts) else "?"
+            return "C27:%s:%s" % (name, eff), "component whose data type comes from %s (local %s, concept %s) is not mapped as documented" % (
+                ["the local representation", "the concept", "both representations"][src] if 0 <= src < 3 else "?", dts[di].value if 0 <= di < len(dts) else "?", dts[cj].value if 0 <= cj < len(dts) else "?")
+        return c
+    specs.append(("c_src_concept", "1 measure whose SDMX data type is given by the concept's core representation only: every data type x structure kind", None))
+    specs.append(("c_src_both", "1 measure with a local representation (every data type) AND a concept core representation (one representative per documented VTL type and an undocumented one): the local one "
+                                "decides, through to_vtl_json and load_datasets", None))
     if tier != "quick":
         specs.append(("c_three_loader", "3-component Schema through load_datasets", _cls("c_three_loader")))
     for p in range(3):
